@@ -1,19 +1,291 @@
+// Native driver around the UNMODIFIED working-tree raw_io.cc (compiled against the pybind11 stand-in in native/shim).
+//
+//   rawdrv <file> [sub_detector names...]      one buffer from a file of little-endian words (prototype mode)
+//   rawdrv --batch [timeout_s]                 line protocol on stdin, one case per line:
+//                                                 <selmask> <n> w0 w1 ... w(n-1)        (decimal)
+//                                              selmask bit0 mdc, 1 tof, 2 emc, 3 muc, 4 trg, 5 ef; 0 = empty list
+//                                              (py_read_bes_raw then applies its default selection); bit 6 adds the
+//                                              invalid name "xyz".
+//                                              one answer line per case:
+//                                                 OK <json>        arrays returned
+//                                                 EXC <what()>     C++ exception (= Python exception through pybind11)
+//                                                 SAN <kind> <pc offsets...>   sanitizer report (ASan / UBSan) or fatal signal
+//                                                 TIMEOUT          wall-clock guard expired
+//
+// Every case runs in a forked child.  The word buffer is placed so that it ENDS exactly at the end of a
+// read/write mapping that is followed by 40 GiB of PROT_NONE address space (raw mmap syscall, not intercepted):
+// the parser's cursor only ever moves forward by at most 2 x (2^32-1) words between two reads, so every read past the
+// supplied buffer faults (reported by ASan's SEGV handler) no matter how far it lands; heap objects of the parser
+// itself (the temporary std::vector in read_ROB) are covered by ordinary ASan red zones.
 #include <cstring>
 #include "raw_io.hh"
 #include <cstdio>
+#include <cstdlib>
 #include <fstream>
 #include <iostream>
+#include <sstream>
+#include <string>
+#include <vector>
+#include <poll.h>
+#include <signal.h>
+#include <sys/mman.h>
+#include <sys/syscall.h>
+#include <sys/wait.h>
+#include <time.h>
+#include <unistd.h>
 namespace py = pybind11;
-static void dump(const py::obj_ptr& o, int ind) {
-  if (auto a = std::get_if<py::arr_impl>(&o->v)) { printf("%s[", a->dtype.c_str());
-    for (size_t i = 0; i < a->n; i++) { uint64_t x = 0; memcpy(&x, a->bytes.data() + i * a->itemsize, a->itemsize); printf("%s%llu", i ? "," : "", (unsigned long long)x); } printf("]"); }
-  else if (auto m = std::get_if<2>(&o->v)) { printf("{"); bool f = true; for (auto& k : o->key_order) { printf("%s%s:", f ? "" : ";", k.c_str()); dump(m->at(k), ind + 1); f = false; } printf("}"); }
-  else if (auto t = std::get_if<3>(&o->v)) { printf("("); for (size_t i = 0; i < t->size(); i++) { if (i) printf("|"); dump((*t)[i], ind + 1); } printf(")"); }
+
+static void dump( const py::obj_ptr& o, std::string& out ) {
+    char tmp[32];
+    if ( auto a = std::get_if<py::arr_impl>( &o->v ) )
+    {
+        out += "{\"d\":\"" + a->dtype + "\",\"a\":[";
+        for ( size_t i = 0; i < a->n; i++ )
+        {
+            uint64_t x = 0;
+            memcpy( &x, a->bytes.data() + i * a->itemsize, a->itemsize );
+            snprintf( tmp, sizeof tmp, "%s%llu", i ? "," : "", (unsigned long long)x );
+            out += tmp;
+        }
+        out += "]}";
+    }
+    else if ( auto m = std::get_if<2>( &o->v ) )
+    {
+        out += "{";
+        bool f = true;
+        for ( auto& k : o->key_order )
+        {
+            out += ( f ? "\"" : ",\"" ) + k + "\":";
+            dump( m->at( k ), out );
+            f = false;
+        }
+        out += "}";
+    }
+    else if ( auto t = std::get_if<3>( &o->v ) )
+    {
+        out += "[";
+        for ( size_t i = 0; i < t->size(); i++ )
+        {
+            if ( i ) out += ",";
+            dump( ( *t )[i], out );
+        }
+        out += "]";
+    }
+    else out += "null";
 }
-int main(int argc, char** argv) {
-  std::ifstream f(argv[1], std::ios::binary); std::vector<char> b((std::istreambuf_iterator<char>(f)), {});
-  std::vector<uint32_t> w(b.size() / 4); memcpy(w.data(), b.data(), w.size() * 4);
-  std::vector<std::string> sd; for (int i = 2; i < argc; i++) sd.push_back(argv[i]);
-  try { auto r = py_read_bes_raw(py::array_t<uint32_t>::from_vector(w), sd); dump(r.p, 0); printf("\n"); }
-  catch (std::exception& e) { printf("EXC %s\n", e.what()); }
+
+static const char* NAMES[6] = { "mdc", "tof", "emc", "muc", "trg", "ef" };
+static std::vector<std::string> sel_of_mask( unsigned mask ) {
+    std::vector<std::string> sd;
+    for ( int i = 0; i < 6; i++ )
+        if ( mask & ( 1u << i ) ) sd.push_back( NAMES[i] );
+    if ( mask & 64u ) sd.push_back( "xyz" );
+    return sd;
+}
+
+static const size_t GUARD = 40ull << 30;
+
+// place the words so that the buffer ends at a PROT_NONE boundary
+static py::array_t<uint32_t> guarded_array( const std::vector<uint32_t>& w ) {
+    size_t page  = 4096;
+    size_t bytes = w.size() * 4;
+    size_t rw    = ( ( bytes + page - 1 ) / page + 1 ) * page;
+    void* base   = (void*)syscall( SYS_mmap, nullptr, rw + GUARD, PROT_NONE,
+                                   MAP_PRIVATE | MAP_ANONYMOUS | MAP_NORESERVE, -1, 0 );
+    if ( base == MAP_FAILED )
+    {
+        fprintf( stderr, "HARNESS mmap failed\n" );
+        _exit( 97 );
+    }
+    if ( syscall( SYS_mprotect, base, rw, PROT_READ | PROT_WRITE ) != 0 )
+    {
+        fprintf( stderr, "HARNESS mprotect failed\n" );
+        _exit( 97 );
+    }
+    uint32_t* p = (uint32_t*)( (char*)base + rw - bytes );
+    if ( bytes ) memcpy( p, w.data(), bytes );
+    py::array_t<uint32_t> r;
+    r.own = std::shared_ptr<uint32_t[]>( p, []( uint32_t* ) {} );
+    r.n_  = w.size();
+    return r;
+}
+
+static std::string run_one( const std::vector<uint32_t>& w, unsigned mask, bool guarded ) {
+    std::string out;
+    try
+    {
+        auto arr = guarded ? guarded_array( w ) : py::array_t<uint32_t>::from_vector( w );
+        auto r   = py_read_bes_raw( arr, sel_of_mask( mask ) );
+        out      = "OK ";
+        dump( r.p, out );
+    } catch ( std::exception& e )
+    { out = std::string( "EXC " ) + e.what(); }
+    return out;
+}
+
+static std::string summarize_report( const std::string& err, int status ) {
+    // first sanitizer headline + the raw pcs of the first frames (symbolize=0 -> "(rawdrv+0x...)")
+    std::string kind;
+    size_t p;
+    if ( ( p = err.find( "ERROR: AddressSanitizer: " ) ) != std::string::npos )
+    {
+        size_t b = p + strlen( "ERROR: AddressSanitizer: " );
+        size_t e = err.find_first_of( " \n", b );
+        kind     = "asan:" + err.substr( b, e - b );
+    }
+    else if ( ( p = err.find( "runtime error: " ) ) != std::string::npos )
+    {
+        size_t b = p + strlen( "runtime error: " );
+        size_t e = err.find( '\n', b );
+        kind     = "ubsan:" + err.substr( b, std::min<size_t>( e - b, 60 ) );
+        for ( auto& c : kind )
+            if ( c == ' ' ) c = '_';
+    }
+    else if ( err.find( "HARNESS" ) != std::string::npos ) kind = "harness-failure";
+    else if ( WIFSIGNALED( status ) ) kind = "signal:" + std::to_string( WTERMSIG( status ) );
+    else kind = "exit:" + std::to_string( WIFEXITED( status ) ? WEXITSTATUS( status ) : -1 );
+    std::string pcs;
+    size_t pos = 0;
+    int nf     = 0;
+    while ( nf < 6 && ( pos = err.find( "+0x", pos ) ) != std::string::npos )
+    {
+        size_t e = err.find( ')', pos );
+        if ( e == std::string::npos ) break;
+        // only frames of this binary
+        size_t lb = err.rfind( '(', pos );
+        if ( lb != std::string::npos && err.substr( lb, pos - lb ).find( "rawdrv" ) != std::string::npos )
+        {
+            pcs += " " + err.substr( pos + 1, e - pos - 1 );
+            nf++;
+        }
+        pos = e;
+    }
+    return "SAN " + kind + pcs;
+}
+
+static std::string run_forked( const std::vector<uint32_t>& w, unsigned mask, int timeout_s ) {
+    int po[2], pe[2];
+    if ( pipe( po ) || pipe( pe ) ) return "SAN harness-failure pipe";
+    pid_t pid = fork();
+    if ( pid == 0 )
+    {
+        close( po[0] );
+        close( pe[0] );
+        dup2( pe[1], 2 );
+        std::string out = run_one( w, mask, true );
+        out += "\n";
+        size_t off = 0;
+        while ( off < out.size() )
+        {
+            ssize_t k = write( po[1], out.data() + off, out.size() - off );
+            if ( k <= 0 ) break;
+            off += k;
+        }
+        _exit( 0 );
+    }
+    close( po[1] );
+    close( pe[1] );
+    std::string out, err;
+    struct timespec t0;
+    clock_gettime( CLOCK_MONOTONIC, &t0 );
+    bool timed_out = false;
+    struct pollfd fds[2] = { { po[0], POLLIN, 0 }, { pe[0], POLLIN, 0 } };
+    int open_fds         = 2;
+    char buf[65536];
+    while ( open_fds > 0 )
+    {
+        struct timespec t1;
+        clock_gettime( CLOCK_MONOTONIC, &t1 );
+        double el = ( t1.tv_sec - t0.tv_sec ) + 1e-9 * ( t1.tv_nsec - t0.tv_nsec );
+        if ( el > timeout_s )
+        {
+            timed_out = true;
+            kill( pid, SIGKILL );
+            break;
+        }
+        int r = poll( fds, 2, 200 );
+        if ( r < 0 ) break;
+        for ( int i = 0; i < 2; i++ )
+        {
+            if ( fds[i].fd < 0 ) continue;
+            if ( fds[i].revents & ( POLLIN | POLLHUP | POLLERR ) )
+            {
+                ssize_t k = read( fds[i].fd, buf, sizeof buf );
+                if ( k > 0 )
+                {
+                    if ( i == 0 ) out.append( buf, k );
+                    else if ( err.size() < ( 1u << 20 ) ) err.append( buf, k );
+                }
+                else
+                {
+                    close( fds[i].fd );
+                    fds[i].fd = -1;
+                    open_fds--;
+                }
+            }
+        }
+    }
+    for ( int i = 0; i < 2; i++ )
+        if ( fds[i].fd >= 0 ) close( fds[i].fd );
+    int status = 0;
+    waitpid( pid, &status, 0 );
+    if ( timed_out ) return "TIMEOUT";
+    bool clean = WIFEXITED( status ) && WEXITSTATUS( status ) == 0 && !out.empty() && out.back() == '\n' &&
+                 err.find( "runtime error: " ) == std::string::npos;
+    if ( clean )
+    {
+        out.pop_back();
+        return out;
+    }
+    return summarize_report( err, status );
+}
+
+int main( int argc, char** argv ) {
+    if ( argc >= 2 && std::string( argv[1] ) == "--batch" )
+    {
+        int timeout_s = argc >= 3 ? atoi( argv[2] ) : 10;
+        std::ios::sync_with_stdio( false );
+        std::string line;
+        while ( std::getline( std::cin, line ) )
+        {
+            if ( line.empty() ) continue;
+            std::istringstream is( line );
+            unsigned mask;
+            size_t n;
+            is >> mask >> n;
+            std::vector<uint32_t> w( n );
+            for ( size_t i = 0; i < n; i++ )
+            {
+                unsigned long long x;
+                is >> x;
+                w[i] = (uint32_t)x;
+            }
+            std::string r = run_forked( w, mask, timeout_s );
+            fputs( r.c_str(), stdout );
+            fputc( '\n', stdout );
+            fflush( stdout );
+        }
+        return 0;
+    }
+    if ( argc < 2 )
+    {
+        fprintf( stderr, "usage: rawdrv <file> [names...] | rawdrv --batch [timeout_s]\n" );
+        return 2;
+    }
+    std::ifstream f( argv[1], std::ios::binary );
+    std::vector<char> b( ( std::istreambuf_iterator<char>( f ) ), {} );
+    std::vector<uint32_t> w( b.size() / 4 );
+    memcpy( w.data(), b.data(), w.size() * 4 );
+    std::vector<std::string> sd;
+    for ( int i = 2; i < argc; i++ ) sd.push_back( argv[i] );
+    std::string out;
+    try
+    {
+        auto r = py_read_bes_raw( py::array_t<uint32_t>::from_vector( w ), sd );
+        out    = "OK ";
+        dump( r.p, out );
+    } catch ( std::exception& e )
+    { out = std::string( "EXC " ) + e.what(); }
+    puts( out.c_str() );
+    return 0;
 }
